@@ -8,6 +8,8 @@ import (
 	"encoding/json"
 	"fmt"
 	"io"
+	"net/http"
+	"net/http/httptest"
 	"os"
 	"path/filepath"
 	"strings"
@@ -151,11 +153,32 @@ func RollbackScenario(scratch, scenario string) (map[string]any, error) {
 		return nil, err
 	}
 	defer r.inst.Stop()
+	probeSeq := 0
 	model := func() string {
 		c := r.inst.Running()
 		var parts []string
 		for _, rt := range c.Routes {
 			parts = append(parts, fmt.Sprintf("%s=(%s,%s)", rt.Path, rt.Application, rt.EndpointName))
+		}
+		// what the instance DOES (not what it says it runs): an endpoint-scoped publish for every managed label shows the
+		// route the live mapping sends it to
+		for _, lab := range [][2]string{{"app1", "ep1"}, {"app2", "ep2"}} {
+			probeSeq++
+			id := fmt.Sprintf("probe-%d", probeSeq)
+			body := fmt.Sprintf(`{"items":[{"id":%q,"payload_b64":"eA=="}]}`, id)
+			req := httptest.NewRequest(http.MethodPost, "/applications/"+lab[0]+"/endpoints/"+lab[1]+"/messages/publish", strings.NewReader(body))
+			req.Header.Set("Content-Type", "application/json")
+			req.Header.Set("X-Hookaido-Audit-Reason", "verif")
+			rec := httptest.NewRecorder()
+			r.inst.Handlers["admin_api"].ServeHTTP(rec, req)
+			where := "-"
+			for _, row := range r.mem.VerifDump() {
+				if row.Env.ID == id {
+					where = row.Env.Route
+					_, _ = r.mem.CancelMessages(queue.MessageCancelRequest{IDs: []string{id}})
+				}
+			}
+			parts = append(parts, fmt.Sprintf("publish(%s/%s)->%d@%s", lab[0], lab[1], rec.Code, where))
 		}
 		return strings.Join(parts, ";")
 	}
